@@ -140,6 +140,16 @@ func (en *Engine) step(st *State) []*State {
 	}
 	switch x := ins.(type) {
 	case *ssa.DebugRef:
+		// remember source names of registers (a variable assigned once has no phi to carry its name)
+		if id, ok := x.Expr.(*ast.Ident); ok && !x.IsAddr {
+			switch x.X.(type) {
+			case *ssa.Phi, *ssa.Alloc, *ssa.Parameter, *ssa.Const:
+			default:
+				if _, seen := en.debugNames[x.X]; !seen {
+					en.debugNames[x.X] = id.Name
+				}
+			}
+		}
 	case *ssa.Alloc:
 		t := x.Type().(*types.Pointer).Elem()
 		kind := "local"
